@@ -76,6 +76,32 @@ def gen_double_pinch(rng):
     return {"streams": ss, "utilities": P.gen_utilities(rng, ss, kind=rng.choice(["none", "outside", "ladder"])), "options": {}}
 
 
+def gen_top_cold_dt(rng):
+    """Individual contributions such that the cold stream with the highest REAL target is not the one with the highest
+    SHIFTED target (the top of the heating demand belongs to a stream with a larger dt_cont); defaults only, a hot
+    utility just short of the true top, or a ladder."""
+    T = float(rng.randrange(15, 30) * 10)
+    dA, dB = rng.choice([(2.0, 10.0), (0.0, 7.5), (2.5, 20.0), (5.0, 10.0)])
+    delta = rng.choice([1.0, 2.0, (dB - dA) / 2])
+    S = lambda n, z, a, b, q, d: {"name": n, "zone": z, "t_supply": a, "t_target": b, "heat_flow": q, "dt_cont": d, "htc": 1.0}
+    ss = [S("CA", "A", T - 150, T, float(rng.randrange(2, 30) * 100), dA),
+          S("CB", "A", T - 140, T - delta, float(rng.randrange(2, 30) * 100), dB),
+          S("H1", "A", T - 20, T - 120, float(rng.randrange(2, 30) * 100), rng.choice([dA, dB, 5.0]))]
+    if rng.random() < 0.4:
+        ss.append(S("H2", rng.choice(["A", "B"]), T - 60, T - 160, float(rng.randrange(2, 20) * 100), 5.0))
+    top = T - delta + dB                           # true top of the shifted heating demand
+    r = rng.random()
+    utils = []
+    if r < 0.4:
+        d = rng.choice([0.0, 5.0])
+        lvl = top - rng.choice([0.5, 1.5])         # a steam level whose shifted band ends just short of the top
+        utils = [{"name": "HP", "type": "Hot", "t_supply": lvl + d, "t_target": lvl + d, "heat_flow": 0.0, "dt_cont": d, "htc": 1.0, "price": 40.0}]
+    elif r < 0.6:
+        utils = P.gen_utilities(rng, ss, kind="ladder")
+    rng.shuffle(ss)
+    return {"streams": ss, "utilities": utils, "options": {}}
+
+
 def observe(problem):
     """Run the service; per zone with a DI target return what C03/C04 look at."""
     from OpenPinch.lib.enums import TargetType, ProblemTableLabel as PT
@@ -170,12 +196,15 @@ def run(ctx: Ctx):
                 "zones with a pocket between the pinches): for "
                 "every zone the hot (cold) duties must sum to Qh (Qc), be non-negative, be zero for utilities beyond the pinch, and the "
                 "total-process record must list the per-utility zone sums; _assign_utility / _maximise_utility_duty on the load "
-                "profiles of those zones compared with the Lean model. Non-trivial: a zone with Qh > 0 and Qc > 0 and >= 2 utilities "
+                "profiles of those zones compared with the Lean model; the default-utility decision (_find_extreme_process_temperatures, "
+                "_complete_utility_data, _add_default_utilities) on random stream extremes x utilities with missing targets / "
+                "contributions compared with the Lean model. Non-trivial: a zone with Qh > 0 and Qc > 0 and >= 2 utilities "
                 "on a side.")
     corpus = load_corpus("C03")
     probs = [c["problem"] for c in corpus if c.get("kind") == "service"]
     probs += [gen_util_problem(ctx.rng) for _ in range(ctx.n(300, 6000))]
     probs += [gen_double_pinch(ctx.rng) for _ in range(ctx.n(40, 800))]
+    probs += [gen_top_cold_dt(ctx.rng) for _ in range(ctx.n(40, 800))]
     from . import c03model
     for pr in probs:
         try:
@@ -188,6 +217,8 @@ def run(ctx: Ctx):
                   nt, ["service_problem", f"n_util={min(len(pr['utilities']), 6)}"])
         closure_oracle(ctx, pr, out, master, zones)
     c03model.correspondence(ctx, probs)
+    from . import c03defaults
+    c03defaults.correspondence(ctx)
 
 
 def replay(ctx: Ctx, payload: dict) -> int:
